@@ -169,6 +169,10 @@ def gen_scenario(seed, mode, thorough, golden):
     scn = {"seed": seed, "mode": mode, "procs": procs, "pre": [], "faults": [], "stretch": [], "late": []}
     if rng.random() < 0.3:
         scn["cache_spelling"] = {str(pr["name"]): rng.choice(["symlink", "relative", "abs"]) for pr in procs}
+    if rng.random() < 0.12:
+        # one process used the same spelling of the cache directory before, when it still meant
+        # another directory (re-pointed symbolic link / relative path and a chdir)
+        scn["decoy_first"] = {str(rng.choice(procs)["name"]): rng.choice(["symlink", "chdir"])}
     if rng.random() < 0.4:
         # a file system with 2 s time stamps, or NFS with a 60 s attribute cache
         scn["coarse_mtime"] = rng.choice([2, 60])
@@ -381,6 +385,10 @@ def _transforms(scn):
         s = copy.deepcopy(scn)
         del s["cache_spelling"]
         yield "absolute cache paths", s
+    if scn.get("decoy_first"):
+        s = copy.deepcopy(scn)
+        del s["decoy_first"]
+        yield "no decoy phase", s
     if scn.get("coarse_mtime"):
         s = copy.deepcopy(scn)
         del s["coarse_mtime"]
